@@ -499,3 +499,54 @@ def splice_all(root, main_abs, inc_abs, limit=16):
                 alts = [a + [raw] for a in alts]
         return alts
     return ['\n'.join(a) + '\n' for a in expand(main_abs, 0)]
+
+
+# ------------------------------------------------------------------------------------------ whole-model correspondence
+def whole_correspondence(ctx, asm, n=12):
+    """Proofs/Whole.v assemble_model (reader + lexer + parser + 16 passes composed inside Coq: the object the whole-model theorems of
+    C13 / C14 / C15 speak about) against the real asm.assemble on n generated include trees + the hand-made error trees, both modes:
+    per-item chunks with their file and line, constants, labels, or the file and line of the AssemblerError."""
+    import tempfile
+    import shutil
+    import pipeline
+    gen = TreeGen(ctx.rng)
+    trees = [gen.make('plain') for _ in range(n)] + repeat_trees(ctx.rng, 4) + error_trees()
+    base = tempfile.mkdtemp(prefix='bbwhole_')
+    try:
+        preamble, terms, reals, meta = '', [], [], []
+        for i, t in enumerate(trees):
+            if 'include_bytes' in t.feats or any(isinstance(v, bytes) for v in t.files.values()):
+                continue
+            root = os.path.join(base, 't{}'.format(i))
+            os.makedirs(root)
+            t.materialise(root)
+            fsname = 'fs_{}'.format(i)
+            preamble += 'Definition {} : fsys := {}.\n'.format(fsname, ser_fs(root))
+            main_abs = os.path.join(root, t.main)
+            inc_abs = [os.path.normpath(os.path.join(root, d)) for d in t.incs]
+            cwd = os.path.normpath(os.path.join(root, t.cwds[i % len(t.cwds)]))
+            for cmp_ in (False, True):
+                old = os.getcwd()
+                os.chdir(cwd)
+                try:
+                    reals.append(pipeline.run_real(asm, main_abs, cmp_, include_dirs=list(inc_abs)))
+                finally:
+                    os.chdir(old)
+                terms.append('match assemble_model 8 {} {} {} {} [] [] {} with WDone r => render (Done r) | WFail e => render (Fail e) '
+                             '| WUnsup => "UNSUP" end'.format(fsname, cbytes(cwd), clist(cbytes(d) for d in inc_abs), cbytes(main_abs),
+                                                              'true' if cmp_ else 'false'))
+                meta.append((t, root, cwd, cmp_))
+        answers = run_terms('Base.PyBase Model.Items Model.Passes Model.Render Model.Reader Proofs.Whole', terms, preamble=preamble, shard=30)
+        for (t, root, cwd, cmp_), real, a in zip(meta, reals, answers):
+            m = pipeline.parse_model(a)
+            if m['status'] == 'UNSUP':
+                ctx.unsupported += 1
+                continue
+            ctx.traces_validated += 1
+            ctx.count('whole-model-' + real['status'])
+            if not pipeline.same(real, m):
+                ctx.corr('Proofs.Whole.assemble_model', {'tree': t.to_json(), 'cwd': os.path.relpath(cwd, root), 'compress': cmp_},
+                         str(pipeline.brief(real)).replace(root, '<root>')[:600],
+                         (str(pipeline.brief(m)) if m['status'] != 'MODEL-ERROR' else 'model evaluation failed').replace(root, '<root>')[:600])
+    finally:
+        shutil.rmtree(base, ignore_errors=True)
